@@ -74,6 +74,42 @@ Definition closed_b (g : graph) (roots : list nat) : bool :=
                      | Some n => forallb (fun d => nmem (fst d) em) (ndeps n)
                      | None => false end) (roots ++ em).
 
+(* C02 minimality, graph relative: every emitted node is required by a root or an emitted distribution, i.e. one of
+   those has - under the extras that roots and emitted distributions request of it - an applicable requirement on the
+   node's project.  A link kept from an abandoned candidate (an extra nobody requests any more), or an extra requested
+   only by a project that is solved because a constraint file mentions it, does not count. *)
+Definition node_extras_from (g : graph) (allowed : list nat) (id : nat) : list string :=
+  match alookup id (heap g) with
+  | None => []
+  | Some n =>
+      sort_set (flat_map (fun rd =>
+                  if nmem rd allowed then
+                    match alookup rd (heap g) with
+                    | Some rn => match alookup id (ndeps rn) with Some (Some r) => rextras r | _ => [] end
+                    | None => []
+                    end
+                  else []) (nrdeps n))
+  end.
+Definition justified (e : env) (g : graph) (allowed : list nat) (id : nat) : bool :=
+  match alookup id (heap g) with
+  | None => false
+  | Some n =>
+      existsb (fun rd =>
+                 nmem rd allowed &&
+                 match alookup rd (heap g) with
+                 | Some rn =>
+                     match nmeta rn with
+                     | Some d => ok_or_false (all_reqs_of e d (None :: map Some (node_extras_from g allowed rd)))
+                                   (existsb (fun q => String.eqb (norm (safe_name (rname q))) (nkey n)))
+                     | None => false
+                     end
+                 | None => false
+                 end) (nrdeps n)
+  end.
+Definition minimal_b (e : env) (g : graph) (roots : list nat) : bool :=
+  let allowed := roots ++ visit_nodes g roots in
+  forallb (justified e g allowed) (emitted g roots).
+
 (* C08: every requirer named in the annotation of an emitted node is itself a root or emitted *)
 Definition explain_honest_b (e : env) (g : graph) (roots : list nat) : bool :=
   let em := visit_nodes g roots in
